@@ -178,7 +178,7 @@ def h_loop(ctx, il, n0, lm, bound):
     if proper and crit.ns_calls:
         n_last, ns_last = crit.ns_calls[-1]
         ok = all(max(0, int(ns_last[l]) - len(reg.samples.get(l, []))) <= 0.01 * len(reg.samples.get(l, [])) for l in range(n_last))
-        ctx.prove("C06.every_level_has_its_optimal_size_within_1pct_on_return", ok, info=info, replay=rp)
+        ctx.prove("C06.every_level_has_its_optimal_size_within_1pct_on_return", ok, info=info, replay=(replay_sizes, _scenario(ctx, crit, il, n0, lm, bound)))
 
 
 def replay_exit(sc):
@@ -202,6 +202,26 @@ def replay_exit(sc):
     finally:
         logging.getLogger().removeHandler(hnd)
     return bool(fell), f"initial_level={sc['initial_level']} N0={sc['n0']} level_max={sc['level_max']} answers={sc['ns']} {sc['conv']}: price() left the loop without a passing bias test below the maximum level (warning 'Initial number of Monte-Carlo paths is probably too low')"
+
+
+def replay_sizes(sc):
+    """real engine with the scenario's answers: on return, is every level within 1% of the allocation computed last?"""
+    from .c05_mlmc import run_scenario
+
+    try:
+        stats, reg, crit = run_scenario(sc)
+    except (ZeroDivisionError, PathAbort):
+        return False, "run did not complete"
+    if not crit.ns_calls:
+        return False, "no allocation was computed"
+    n_last, ns_last = crit.ns_calls[-1]
+    bad = []
+    for l in range(n_last):
+        have = len(reg.samples.get(l, []))
+        if max(0, int(ns_last[l]) - have) > 0.01 * have:
+            bad.append(f"level {l}: {have} samples simulated, last allocation asks for {int(ns_last[l])}")
+    return bool(bad), (f"initial_level={sc['initial_level']} N0={sc['n0']} level_max={sc['level_max']} answers={sc['ns']} {sc['conv']}: price() returned although "
+                       + "; ".join(bad))
 
 
 def h_twin(ctx):
@@ -247,7 +267,7 @@ def harnesses(tier):
 
 EXPECT = ["C06.positive_variance_gets_samples", "C06.sizes_are_rounded_up", "C06.real_valued_allocation_meets_budget_exactly",
           "C06.estimator_variance_within_budget", "C06.bias_tolerance_squared_plus_variance_share_within_rmse_squared",
-          "C06.never_simulates_above_maximum_level", "C06.returns_only_when_bias_test_passes_or_maximum_level_reached"]
+          "C06.never_simulates_above_maximum_level", "C06.every_level_has_its_optimal_size_within_1pct_on_return", "C06.returns_only_when_bias_test_passes_or_maximum_level_reached"]
 
 
 def main(tier):
